@@ -11,22 +11,24 @@ import (
 // C09 — providers and scopes are safe for concurrent use.
 
 var c09Alphabet = map[string]Op{
-	"get-scoped":      {Kind: "get", Scope: "s1", T: "D1"},
-	"get-transient":   {Kind: "get", Scope: "s1", T: "D2"},
-	"get-singleton":   {Kind: "get", Scope: "s1", T: "D0"},
-	"get-group":       {Kind: "group", Scope: "s1", T: "D3", Group: "g"},
-	"get-keyed":       {Kind: "get", Scope: "s1", T: "P5", Key: "k"},
-	"get-other-scope": {Kind: "get", Scope: "s2", T: "D1"},
-	"provider-get":    {Kind: "get", Scope: "", T: "D1"},
-	"create-scope":    {Kind: "scope", Scope: "", Bind: "n"},
-	"create-child":    {Kind: "scope", Scope: "s1", Bind: "n"},
-	"close-scope":     {Kind: "close", Scope: "s1"},
-	"close-parent":    {Kind: "close", Scope: "s0"},
-	"close-provider":  {Kind: "close", Scope: ""},
-	"cancel-scope":    {Kind: "cancel", Scope: "s1"},
+	"get-scoped":       {Kind: "get", Scope: "s1", T: "D1"},
+	"get-transient":    {Kind: "get", Scope: "s1", T: "D2"},
+	"get-singleton":    {Kind: "get", Scope: "s1", T: "D0"},
+	"get-group":        {Kind: "group", Scope: "s1", T: "D3", Group: "g"},
+	"get-keyed":        {Kind: "get", Scope: "s1", T: "P5", Key: "k"},
+	"get-other-scope":  {Kind: "get", Scope: "s2", T: "D1"},
+	"get-3param":       {Kind: "get", Scope: "s1", T: "P4"},
+	"get-3param-other": {Kind: "get", Scope: "s2", T: "P4"},
+	"provider-get":     {Kind: "get", Scope: "", T: "D1"},
+	"create-scope":     {Kind: "scope", Scope: "", Bind: "n"},
+	"create-child":     {Kind: "scope", Scope: "s1", Bind: "n"},
+	"close-scope":      {Kind: "close", Scope: "s1"},
+	"close-parent":     {Kind: "close", Scope: "s0"},
+	"close-provider":   {Kind: "close", Scope: ""},
+	"cancel-scope":     {Kind: "cancel", Scope: "s1"},
 }
 
-var c09Names = []string{"get-scoped", "get-transient", "get-singleton", "get-group", "get-keyed", "get-other-scope", "provider-get",
+var c09Names = []string{"get-scoped", "get-transient", "get-singleton", "get-group", "get-keyed", "get-other-scope", "get-3param", "get-3param-other", "provider-get",
 	"create-scope", "create-child", "close-scope", "close-parent", "close-provider", "cancel-scope"}
 
 func c09Scenario(ops []string, withInit bool) *Scenario {
@@ -58,6 +60,7 @@ func c09Oracle(e *Env, s *vsched.Sched) []Finding {
 		}
 	}
 	out = append(out, e.LifetimeOracle()...)
+	out = append(out, e.WiringOracle(NewModel(e.W.Spec))...)
 	for _, f := range e.DisposalOracle(true) {
 		// disposal is C10's subject; here only double closes (a lifetime-rule breach visible to callers)
 		if f.F["clause"] == "closed-twice" {
@@ -73,7 +76,7 @@ func c09Oracle(e *Env, s *vsched.Sched) []Finding {
 func init() {
 	mc.Register(&mc.Check{
 		Prop:        "C09",
-		Rule:        "programs: every multiset of 2 operations (quick: preemption bound 1, bound 2 for 12 core pairs; thorough: bound 2, bound 3 for the core pairs) and every multiset of 3 operations (thorough, bound 1) from a 13-operation alphabet (resolutions of every lifetime, by key and group, on the shared scope / another scope / the provider; scope and child-scope creation; Close of the scope, its parent, the provider; context cancellation), one operation per goroutine on one shared provider, with and without a scoped initializer; all schedules within the preemption bound; a vector-clock happens-before race detector over every field access of godi's own structs runs on every execution. An outcome is the canonical observation string of one execution.",
+		Rule:        "programs: every multiset of 2 operations (quick: preemption bound 1, bound 2 for 14 core pairs; thorough: bound 2, bound 3 for the core pairs) and every multiset of 3 operations (thorough, bound 1) from a 15-operation alphabet (resolutions of every lifetime, by key and group, on the shared scope / another scope / the provider; scope and child-scope creation; Close of the scope, its parent, the provider; context cancellation), one operation per goroutine on one shared provider, with and without a scoped initializer; all schedules within the preemption bound; a vector-clock happens-before race detector over every field access of godi's own structs runs on every execution. An outcome is the canonical observation string of one execution.",
 		Assume:      []string{"sequentially consistent interleavings at synchronisation granularity; the race detector covers fields of godi's struct types only", "user code (constructors, Close methods) yields on entry"},
 		MinOutcomes: 10,
 		Jobs: func(tier string) []mc.Job {
@@ -101,7 +104,7 @@ func init() {
 			}
 			n := len(c09Names)
 			core := map[string]bool{}
-			for _, p := range [][2]string{{"get-scoped", "get-scoped"}, {"get-scoped", "close-scope"}, {"get-transient", "close-scope"},
+			for _, p := range [][2]string{{"get-scoped", "get-scoped"}, {"get-3param", "get-3param-other"}, {"get-3param", "get-3param"}, {"get-scoped", "close-scope"}, {"get-transient", "close-scope"},
 				{"get-keyed", "cancel-scope"}, {"create-child", "close-scope"},
 				{"create-scope", "close-provider"}, {"provider-get", "close-provider"}, {"get-scoped", "close-provider"},
 				{"get-group", "get-group"}, {"get-scoped", "get-group"}, {"close-scope", "close-scope"}, {"close-scope", "cancel-scope"}} {
